@@ -21,6 +21,16 @@ Proved (DESIGN §6 C17):
 * ✔ `invariants_table_reachable`: every entry's invariant fields are a list `abelian_invariants`
   can return (zeros first, then a divisibility chain) — an entry failing this is dead.
 
+* ✔ `bad_subgroup_count_iff`, `bad_subgroup_invariants_iff`, `bad_subgroup_invariants_subgroups`,
+  `bad_connected_components_iff`: what the helper functions of the cascade compute, in terms of the
+  conjugacy classes of subgroups of small index of the presented group (C12), the presentations of
+  their stabilisers (C13) and their abelianisations (C14);
+* ✔ `cascade_reasons_mean`, `connected_sum_reasons_mean`: what each exit behind `simplify` says
+  about the orbifold group of the simplified cover (facts agreeing with the models);
+* ✔ `cascade_skeleton_matches_source`, `bad_connected_components_uses_constants`: the numeric
+  constants of the cascade and the kinds of its exits in source order, as written in the model,
+  are the ones regenerated from src/euclidicity.rs on this run.
+
 Not theorems (Spec clauses on every explored case, `open_obligations` in conf/C17.json):
 invariance under renumbering and dual, consistency along covers, soundness of `Yes`.
 -/
@@ -28,6 +38,8 @@ import DSymVerif.Model.Euclidicity
 import DSymVerif.Proofs.EuclidicityTableFacts
 import DSymVerif.Proofs.EuclidicityTableReach
 import DSymVerif.Proofs.EuclidicityString
+import DSymVerif.Proofs.EuclidicityHelpers
+import DSymVerif.Proofs.EuclidicityCascade
 import DSymVerif.Spec.C17
 import DSymVerif.Props.C15
 import DSymVerif.Proofs.TGroupIso
@@ -463,6 +475,247 @@ theorem invariant_group_part_iso_invariant (a b : DS.DSymData) (f g : Nat → Na
   obtain ⟨za⟩ := C14.abelianization_is_returned_list fa.nrGenerators fa.relators oa hina hoa
   obtain ⟨zb⟩ := C14.abelianization_is_returned_list fb.nrGenerators fb.relators ob hinb hob
   exact ⟨za.symm.trans ((MulEquiv.abelianizationCongr ((ePa.trans eM).trans ePb.symm)).trans zb)⟩
+
+/-! ### 4. the helper functions of the cascade (tied to the code through `verif_hooks`) -/
+
+open DSymVerif.EucP in
+/-- **bad_subgroup_count_iff.**  For a presentation `⟨1..n | rels⟩` whose relators are words over
+    its generators and `k ≥ 1`: the model of `bad_subgroup_count(fg, k, expected)` returns, and
+    returns `true` exactly when the NUMBER OF CONJUGACY CLASSES OF SUBGROUPS OF INDEX `1 … k` of the
+    presented group differs from `expected` — the number being the length of any (and there is
+    one) system of representatives `Hs`: subgroups of index `1 … k`, pairwise non-conjugate, every
+    subgroup of index `1 … k` conjugate to one of them (`ClassReps`; C12
+    `coset_tables_subgroup_classes_nofuel`).  The cap `take(expected + 1)` of the code does not
+    change the verdict. -/
+theorem bad_subgroup_count_iff (fg : FG.FundGroup) (k e : Nat) (hk : 1 ≤ k)
+    (hlet : LettersOK fg.genToEdge.length fg.relators) :
+    ∃ b, badSubgroupCount fg k e = .ok b ∧
+      (∃ Hs, ClassReps fg.genToEdge.length fg.relators k Hs) ∧
+      ∀ Hs, ClassReps fg.genToEdge.length fg.relators k Hs → (b = true ↔ Hs.length ≠ e) :=
+  badSubgroupCount_iff fg k e hk hlet
+
+/-- the presentation `⟨1..n | rels⟩` as the hooks receive it -/
+def pres (n : Nat) (rels : List (List Int)) : FG.FundGroup :=
+  { relators := rels, cones := [], genToEdge := (List.range n).map (fun g => (g + 1, (g + 1, 0))),
+    edgeToWord := [] }
+
+/-- ℤ³ = ⟨a, b, c | [a,b], [a,c], [b,c]⟩ -/
+def presZ3 : FG.FundGroup := pres 3 [[1, 2, -1, -2], [1, 3, -1, -3], [2, 3, -2, -3]]
+
+/-! non-vacuity: ℤ³ has 1 + 7 classes of subgroups of index ≤ 2 (`false`), ℤ has 2 (`true`) -/
+example : EucP.LettersOK presZ3.genToEdge.length presZ3.relators := by unfold EucP.LettersOK; decide
+set_option maxRecDepth 100000 in
+example : badSubgroupCount presZ3 2 8 = .ok false := by decide +kernel
+set_option maxRecDepth 100000 in
+example : badSubgroupCount (pres 1 []) 2 8 = .ok true ∧ badSubgroupCount (pres 1 []) 2 2 = .ok false := by
+  decide +kernel
+
+open DSymVerif.EucP DSymVerif.CosetInvP in
+/-- **bad_subgroup_invariants_iff.**  The model of `bad_subgroup_invariants(fg, k, expected)` returns
+    (no panic, no exhausted fuel in `coset_tables`, `stabilizer`, `abelian_invariants`), and returns
+    `true` exactly when one of the tables yielded by `coset_tables(n, rels, k)` has a stabiliser of
+    row 0 whose `abelian_invariants` differ from `expected`. -/
+theorem bad_subgroup_invariants_iff (fg : FG.FundGroup) (k : Nat) (ex : List Nat)
+    (hlet : LettersOK fg.genToEdge.length fg.relators) :
+    ∃ b, badSubgroupInvariants fg k ex = .ok b ∧
+      (b = true ↔ ∃ x ∈ tables fg.genToEdge.length fg.relators k, ∃ t v inv, x = .ok t ∧ t.view = .ok v ∧
+        D3.stabilizerInvariants fg.genToEdge.length fg.relators (viewTab v) = .ok inv ∧ inv ≠ ex) :=
+  badSubgroupInvariants_iff fg k ex hlet
+
+open DSymVerif.EucP DSymVerif.CosetP DSymVerif.CosetSoundP in
+/-- **bad_subgroup_invariants_subgroups** — the same in terms of the subgroups of `⟨1..n | rels⟩`
+    (`k ≥ 1`):
+    * `false` ⇒ EVERY subgroup `H` of index `1 … k` has `H^ab ≅ Π ZMod d` over `expected`
+      (`ZMod 0 = ℤ`; for `expected = [0,0,0]`: `H^ab ≅ ℤ³`) — `H` is conjugate, hence isomorphic, to
+      the stabiliser of a listed table (C12), which `stabilizer` presents (C13) and whose
+      abelianisation `abelian_invariants` returns (C14);
+    * `true` ⇒ SOME subgroup `H` of index `1 … k` is presented by `⟨gens | srels⟩` whose canonical
+      invariants by the determinantal-divisor definition (`SpecC14.expected`: zeros, then the
+      divisibility chain of factors ≥ 2) are a list other than `expected`, and `H^ab ≅ Π ZMod d`
+      over that list.  (That two different canonical lists give non-isomorphic groups is the
+      uniqueness half of the structure theorem, not formalised.) -/
+theorem bad_subgroup_invariants_subgroups (fg : FG.FundGroup) (k : Nat) (ex : List Nat) (hk : 1 ≤ k)
+    (hlet : LettersOK fg.genToEdge.length fg.relators) :
+    ∃ b, badSubgroupInvariants fg k ex = .ok b ∧
+      (b = false → ∀ H : Subgroup (G fg.genToEdge.length fg.relators), H.index ≠ 0 → H.index ≤ k →
+        Nonempty (Abelianization H ≃* Multiplicative (Inv.ZL ex))) ∧
+      (b = true → ∃ (H : Subgroup (G fg.genToEdge.length fg.relators)) (inv : List Nat)
+          (gens srels : List (List Int)),
+        H.index ≠ 0 ∧ H.index ≤ k ∧ inv ≠ ex ∧ SpecC14.expected gens.length srels = inv ∧
+        Nonempty (PresentedGroup (relSet gens.length srels) ≃* H) ∧
+        Nonempty (Abelianization H ≃* Multiplicative (Inv.ZL inv))) :=
+  badSubgroupInvariants_subgroups fg k ex hk hlet
+
+/-! non-vacuity: every subgroup of ℤ is ℤ (`false`); the free group of rank 3 has H₁ = ℤ³ but its
+    subgroups of index 2 are free of rank 5 (`true`); the trivial group passes the index-5 test of
+    `bad_connected_components` (`false`).  (ℤ³ itself cannot be evaluated by the kernel:
+    `abelian_invariants` ends with a `mergeSort`, which is defined by well-founded recursion; it
+    is the differential case `bsi … group=Z^3` of the harness.) -/
+example : EucP.LettersOK (pres 3 []).genToEdge.length (pres 3 []).relators := by unfold EucP.LettersOK; decide
+set_option maxRecDepth 100000 in
+example : badSubgroupInvariants (pres 1 []) 3 [0] = .ok false ∧
+    badSubgroupInvariants (pres 3 []) 2 [0, 0, 0] = .ok true ∧
+    badSubgroupInvariants (pres 0 []) 5 [] = .ok false := by decide +kernel
+
+open DSymVerif.EucP in
+/-- **bad_connected_components_iff.**  If the facts of every component are computed — `compFacts s d
+    = .ok (c d)` for the representative `d` of every component: `subsymbol`, `fundamental_group`,
+    `abelian_invariants` and the two subgroup tests return — then the model of
+    `bad_connected_components` returns, and returns `true` exactly when the components are bad
+    (`ComponentsBad`): some component has H₁ invariants other than `[0,0,0]` and `[]`, or a
+    component with invariants `[]` fails `bad_subgroup_invariants(fg, 5, [])`, or one with
+    `[0,0,0]` fails `bad_subgroup_invariants(fg, 2, [0,0,0])`, or TWO components have `[0,0,0]`.
+    The "component" of `d` is `subsymbol(ds, 0..ds.dim(), d)` with the range as written in the code
+    — EXCLUSIVE: for a 3-dimensional symbol the 2-dimensional tile of `d`, not its connected
+    component (observed on the real code: two disjoint 3-torus covers give `false`; harness cases
+    `bcc … cover+cover`). -/
+theorem bad_connected_components_iff (s : DS.DSymData) (c : Nat → CompFacts)
+    (h : ∀ d ∈ s.view.orbitReps s.view.indices s.view.elements, compFacts s d = .ok (c d)) :
+    ∃ b, badConnectedComponents s = .ok b ∧
+      (b = true ↔ ComponentsBad ((s.view.orbitReps s.view.indices s.view.elements).map c)) :=
+  badConnectedComponents_iff s c h
+
+/-! non-vacuity: on C09's symbol `<1.1:2:2,2,2:4,3>` (one component; its "component" is the
+    1-dimensional subsymbol on the indices 0, 1, with H₁ = ℤ/4) the facts are computed and the
+    verdict is `true` -/
+set_option maxRecDepth 100000 in
+example : (∀ d ∈ C09.symB.view.orbitReps C09.symB.view.indices C09.symB.view.elements,
+      EucP.compFacts C09.symB d = .ok ⟨[4], true, true⟩) ∧
+    badConnectedComponents C09.symB = .ok true := by decide +kernel
+
+/-! ### 5. what the exits behind `simplify` mean -/
+
+open DSymVerif.EucP DSymVerif.CosetP DSymVerif.CosetSoundP in
+/-- **cascade_reasons_mean.**  Let `simp` be a valid symbol (standing for `canonical(simplify(cov))`;
+    `simplify` has no model, so `simp` is arbitrary) and `f` facts that agree with the models on
+    `simp` (`CascadeFactsOf`: connectedness, `fundamental_group`, `abelian_invariants`, `is_free`,
+    `bad_subgroup_count(fg, 2, 8)`, `bad_subgroup_invariants(fg, 2, [0,0,0])`).  Then the model of
+    `fundamental_group` returns a presentation `⟨1..n | rels⟩ ≅ TGroup simp` (the orbifold
+    fundamental group, C09) and each exit of the cascade for a connected `simp` implies the stated
+    group-theoretic fact:
+    * `no: cover has at least one handle` ⇒ `H₁(simp) ≅ Π ZMod d` over the canonical list `invars`
+      (determinantal divisors), and `invars ≠ [0,0,0]`;
+    * `no: cover has free fundamental group` ⇒ no relators, `TGroup simp` is free of rank `n`, and
+      `H₁ ≅ ℤ³`;
+    * `no: bad subgroup count for cover` ⇒ the number of conjugacy classes of subgroups of index
+      ≤ 2 (length of any system of representatives) is not 8;
+    * `no: bad subgroups for cover` ⇒ that number is 8 and some subgroup of index ≤ 2 has canonical
+      invariants other than `[0,0,0]`;
+    * `maybe: no decision found` ⇒ `H₁ ≅ ℤ³`, there are relators, exactly 8 classes of subgroups of
+      index ≤ 2, and EVERY subgroup of index ≤ 2 has abelianisation `ℤ³`. -/
+theorem cascade_reasons_mean (simp : DS.DSymData) (f : Facts) (hs : DS.ValidSym simp) (hdim : 1 ≤ simp.dim)
+    (hf : CascadeFactsOf simp f) :
+    ∃ fg, FG.fundamentalGroup simp = .ok fg ∧ LettersOK fg.genToEdge.length fg.relators ∧
+      Nonempty (G fg.genToEdge.length fg.relators ≃* FGP.TGroup simp) ∧
+      (decideVerdict f = .no .handle → ∃ invars, invars ≠ [0, 0, 0] ∧
+        invars = SpecC14.expected fg.genToEdge.length fg.relators ∧
+        Nonempty (Abelianization (FGP.TGroup simp) ≃* Multiplicative (Inv.ZL invars))) ∧
+      (decideVerdict f = .no .freeGroup → fg.relators = [] ∧
+        Nonempty (FGP.TGroup simp ≃* FreeGroup (Fin fg.genToEdge.length)) ∧
+        Nonempty (Abelianization (FGP.TGroup simp) ≃* Multiplicative (Fin 3 → ℤ))) ∧
+      (decideVerdict f = .no .subgroupCount →
+        ∀ Hs, ClassReps fg.genToEdge.length fg.relators 2 Hs → Hs.length ≠ 8) ∧
+      (decideVerdict f = .no .subgroups →
+        (∀ Hs, ClassReps fg.genToEdge.length fg.relators 2 Hs → Hs.length = 8) ∧
+        ∃ (H : Subgroup (G fg.genToEdge.length fg.relators)) (inv : List Nat) (gens srels : List (List Int)),
+          H.index ≠ 0 ∧ H.index ≤ 2 ∧ inv ≠ [0, 0, 0] ∧ SpecC14.expected gens.length srels = inv ∧
+          Nonempty (PresentedGroup (relSet gens.length srels) ≃* H) ∧
+          Nonempty (Abelianization H ≃* Multiplicative (Inv.ZL inv))) ∧
+      (decideVerdict f = .maybe .noDecision →
+        Nonempty (Abelianization (FGP.TGroup simp) ≃* Multiplicative (Fin 3 → ℤ)) ∧
+        fg.relators ≠ [] ∧
+        (∀ Hs, ClassReps fg.genToEdge.length fg.relators 2 Hs → Hs.length = 8) ∧
+        ∀ H : Subgroup (G fg.genToEdge.length fg.relators), H.index ≠ 0 → H.index ≤ 2 →
+          Nonempty (Abelianization H ≃* Multiplicative (Inv.ZL [0, 0, 0]))) :=
+  EucP.cascade_reasons_mean simp f hs hdim hf
+
+/-- facts for C09's symbol `<1.1:2:2,2,2:4,3>` (group `*432`, H₁ = ℤ/2, 1 + 1 classes of index ≤ 2):
+    the cascade leaves through `cover has at least one handle` -/
+def factsB : Facts :=
+  { invInTable := true, coverFound := true, simplifyOk := true, keyIsCubic := false, connected := true,
+    badComponents := false, invarsZ3 := false, isFree := false, badCount := true, badSubInv := true }
+
+set_option maxRecDepth 100000 in
+/-- non-vacuity of `cascade_reasons_mean`: a valid symbol, facts agreeing with the models on it,
+    and the exit `handle` -/
+example : DS.ValidSym C09.symB ∧ 1 ≤ C09.symB.dim ∧ EucP.CascadeFactsOf C09.symB factsB ∧
+    decideVerdict factsB = .no .handle := by
+  refine ⟨C09.symB_hyps.1, by decide, ⟨by decide +kernel, (fun h => absurd h (by decide)), fun _ => ?_⟩, by decide⟩
+  exact ⟨C09.fgB, [2], C09.symB_hyps.2.2.2.2.1, by decide +kernel, by decide, by decide,
+    by decide +kernel, by decide +kernel⟩
+
+open DSymVerif.EucP in
+/-- **connected_sum_reasons_mean.**  For a DISCONNECTED `simp` (facts agreeing with the models, the
+    facts of every component computed): `no: cover is a non-trivial connected sum` ⇒ the
+    components are bad (`ComponentsBad`), `maybe: cover is a (potentially trivial) connected sum`
+    ⇒ they are not.  See `bad_connected_components_iff` for what the code takes as a component. -/
+theorem connected_sum_reasons_mean (simp : DS.DSymData) (f : Facts) (hf : CascadeFactsOf simp f)
+    (c : Nat → CompFacts)
+    (hc : ∀ d ∈ simp.view.orbitReps simp.view.indices simp.view.elements, compFacts simp d = .ok (c d)) :
+    (decideVerdict f = .no .connectedSum → simp.view.isConnected = false ∧
+      ComponentsBad ((simp.view.orbitReps simp.view.indices simp.view.elements).map c)) ∧
+    (decideVerdict f = .maybe .connectedSum → simp.view.isConnected = false ∧
+      ¬ ComponentsBad ((simp.view.orbitReps simp.view.indices simp.view.elements).map c)) :=
+  EucP.connected_sum_reasons_mean simp f hf c hc
+
+/-- two copies of C09's symbol `<1.1:2:2,2,2:4,3>` side by side (disconnected) -/
+def symBB : DS.DSymData :=
+  { dset := { size := 4, dim := 2, op := #[2, 2, 2, 1, 1, 1, 4, 4, 4, 3, 3, 3] },
+    orbitIndex := #[#[0, 0, 0, 1, 1], #[0, 2, 2, 3, 3]], orbitRs := #[1, 1, 1, 1], orbitVs := #[4, 4, 3, 3] }
+
+def factsBB : Facts :=
+  { invInTable := true, coverFound := true, simplifyOk := true, keyIsCubic := false, connected := false,
+    badComponents := true, invarsZ3 := false, isFree := false, badCount := false, badSubInv := false }
+
+set_option maxRecDepth 100000 in
+/-- non-vacuity of `connected_sum_reasons_mean`: a disconnected symbol, facts agreeing with the
+    models on it, the facts of both components computed, and the exit `non-trivial connected sum` -/
+example : EucP.CascadeFactsOf symBB factsBB ∧
+    (∀ d ∈ symBB.view.orbitReps symBB.view.indices symBB.view.elements,
+      EucP.compFacts symBB d = .ok ⟨[4], true, true⟩) ∧
+    decideVerdict factsBB = .no .connectedSum := by
+  refine ⟨⟨by decide +kernel, fun _ => by decide +kernel, fun h => absurd h (by decide)⟩,
+    by decide +kernel, by decide⟩
+
+/-! ### 6. the skeleton of the cascade is the one in the source -/
+
+/-- **cascade_skeleton_matches_source.**  The numeric constants of the cascade and the kinds of its
+    exits, as written by hand in Model/Euclidicity.lean and used by the theorems above, are the
+    ones tools/extract_tables.py regenerates from src/euclidicity.rs on every run:
+    `bad_subgroup_count(&fg, 2, 8)`, `bad_subgroup_invariants(&fg, 2, [0,0,0])`, the handle test
+    `invars != [0,0,0]`, the two tests of `bad_connected_components` (`[0,0,0]` → index 2 with
+    `[0,0,0]`; `[]` → index 5 with `[]`), the cubic key, and the sequence of exit kinds
+    (`fail` / `give_up` / `Yes`) in source order; the hand-written list of exits in source order
+    is a rearrangement of the eleven rows of `cascadeTable` (which `decide_table` ties to
+    `decideVerdict`).  The diagnostic TEXTS are deliberately not part of this (the property speaks
+    of the verdict class only).  A change of a constant or of the kind/order of the exits in the
+    Rust source breaks this theorem on the next run. -/
+theorem cascade_skeleton_matches_source :
+    Euc.countArgs = Tables.cascadeCountArgs ∧
+    Euc.subgroupArgs = Tables.cascadeSubgroupArgs ∧
+    Euc.homologyTest = Tables.cascadeHomology ∧
+    Euc.componentTests = Tables.componentTests ∧
+    Euc.exitsInSourceOrder.map Verdict.kind = Tables.cascadeKinds ∧
+    Euc.exitsInSourceOrder.Nodup ∧ Euc.exitsInSourceOrder.length = cascadeTable.length ∧
+    (∀ r ∈ cascadeTable, r.2 ∈ Euc.exitsInSourceOrder) := by
+  refine ⟨by decide, by decide, by decide, by decide, by decide, by decide, by decide, by decide⟩
+
+/-- the model of `bad_connected_components` is the parametrised one at the hand-written constants
+    (equal to the regenerated ones by `cascade_skeleton_matches_source`) -/
+theorem bad_connected_components_uses_constants (s : DS.DSymData) :
+    badConnectedComponents s = badConnectedComponentsWith Euc.componentTests s := by
+  have key : ∀ (l : List Nat) (seen : Bool),
+      badConnectedComponents.go s l seen =
+        badConnectedComponentsWith.go s [0, 0, 0] 2 [0, 0, 0] [] 5 [] l seen := by
+    intro l
+    induction l with
+    | nil => intro seen; rfl
+    | cons d rest ih =>
+      intro seen
+      unfold badConnectedComponents.go badConnectedComponentsWith.go
+      simp only [ih]
+  unfold badConnectedComponents badConnectedComponentsWith Euc.componentTests
+  exact key _ _
 
 /-! ### open (not theorems): the statements, for the record -/
 
